@@ -89,8 +89,8 @@ def run_check(pid, wt, tier, seed=1):
             "failing_tests": failing_tests, "message": msg}
 
 
-def verify(pid, letter, src, tier, keep=False):
-    name = "%s_%s" % (pid, letter)
+def verify(pid, letter, src, tier, keep=False, store_as=None):
+    name = store_as or "%s_%s" % (pid, letter)
     patch = os.path.join(src, "%s_%s.patch.diff" % (pid, letter))
     demo = os.path.join(src, "%s_%s.demo" % (pid, letter))
     desc = os.path.join(src, "%s_%s.md" % (pid, letter))
@@ -218,16 +218,18 @@ def reverify(names):
         if names and name not in names:
             continue
         pid, letter = name.split("_")
+        store = name
+        letter = letter[-1]
         src = "/tmp/reverify-src-%s" % name
         shutil.rmtree(src, ignore_errors=True)
         os.makedirs(src)
-        shutil.copyfile(os.path.join(d, "patch.diff"), os.path.join(src, "%s.patch.diff" % name))
+        base = "%s_%s" % (pid, letter)
+        shutil.copyfile(os.path.join(d, "patch.diff"), os.path.join(src, "%s.patch.diff" % base))
         if os.path.isdir(os.path.join(d, "demo")):
-            shutil.copytree(os.path.join(d, "demo"), os.path.join(src, "%s.demo" % name))
+            shutil.copytree(os.path.join(d, "demo"), os.path.join(src, "%s.demo" % base))
         if os.path.exists(os.path.join(d, "description.md")):
-            shutil.copyfile(os.path.join(d, "description.md"), os.path.join(src, "%s.md" % name))
-        old = json.load(open(os.path.join(d, "meta.json")))
-        m = verify(pid, letter, src, "quick")
+            shutil.copyfile(os.path.join(d, "description.md"), os.path.join(src, "%s.md" % base))
+        m = verify(pid, letter, src, "quick", store_as=store)
         shutil.rmtree(src, ignore_errors=True)
         if m:
             st = m["steps"]
@@ -292,7 +294,7 @@ if __name__ == "__main__":
     if a[0] == "verify":
         pid, letter = a[1], a[2]
         src = a[a.index("--src") + 1] if "--src" in a else "/tmp/seed-%s/SEED" % pid
-        m = verify(pid, letter, src, tier, keep="--keep" in a)
+        m = verify(pid, letter, src, tier, keep="--keep" in a, store_as=(a[a.index("--as") + 1] if "--as" in a else None))
         if m:
             print(json.dumps({k: v for k, v in m.items() if k not in ("needs_to_manifest",)}, indent=1)[:3000])
     elif a[0] == "recheck":
